@@ -121,8 +121,17 @@ def construction(n: int, twin: bool = False, real: bool = False):
             if u != 0:
                 return True
         a = [leaf(x) for x in av]
-        root = mt.get_merkle_root(list(a))
-        tree = mt.get_merkle_tree(list(a))
+        # the caller's list object is handed in as it is (no copy) and must come back unchanged
+        mine = list(a)
+        root = mt.get_merkle_root(mine)
+        if len(mine) != len(a) or mt.get_merkle_root(mine) != root:
+            return False
+        tree = mt.get_merkle_tree(mine)
+        if len(mine) != len(a):
+            return False
+        for x, y in zip(mine, a):
+            if x != y:
+                return False
         proof = mt.get_proof(tree, i)
         if twin:
             return False
@@ -172,10 +181,10 @@ def obligations(tier: str, known: List[str]) -> List[Ob]:
     for n in range(1, N + 1):
         for m in range(n, N + 1):
             obs.append(Ob("inject[n=%d,m=%d]" % (n, m), c1, "inject", {"n": n, "m": m}, timeout=300))
-    for n in range(1, N + 1):
+    for n in range(1, max(N, 8) + 1):
         obs.append(Ob("construction+proof[n=%d]" % n, c2, "construction", {"n": n}, timeout=300))
     obs.append(twin_of(obs[1]))
-    obs.append(twin_of(obs[-2]))
+    obs.append(twin_of([o for o in obs if o.name == "construction+proof[n=5]"][0]))
     return obs
 
 
